@@ -204,13 +204,13 @@ func (z *zoneEngine) inlineCall(s *zstate, c *ssa.Call, f *ssa.Function) {
 					break
 				}
 				if z.useGetters && isIntType(x.Type()) {
-				// class invariants (c01_bounds.go) hold at the callee's loads as they would at a load
-				// placed at the call: not downstream of a store of the caller that no normaliser followed
-				if lb, ok := z.classBoundAt(c, tn, fld); ok {
-					st.add(zZero, zterm{v: x}, -lb)
+					// class invariants (c01_bounds.go) hold at the callee's loads as they would at a load
+					// placed at the call: not downstream of a store of the caller that no normaliser followed
+					if lb, ok := z.classBoundAt(c, tn, fld); ok {
+						st.add(zZero, zterm{v: x}, -lb)
+					}
 				}
-			}
-			cl := z.currentCallerLoad(c, c.Call.Args[paramIdx[prm]], fa.Field, tn, fld)
+				cl := z.currentCallerLoad(c, c.Call.Args[paramIdx[prm]], fa.Field, tn, fld)
 				if cl == nil {
 					break
 				}
